@@ -598,6 +598,12 @@ macro_rules! supported_type_impl {
                 )? )+
             }
 
+            /// Verification hook (read-only): number of saved values in this group.
+            #[cfg(feature = "verif")]
+            pub(crate) fn verif_len(&self) -> usize {
+                0 $( $( + self.$save_stack_field.0.len() )? )+
+            }
+
             pub(crate) fn serializable<'a>(
                 &'a self,
                 built_ins: &HashMap<GettersKey, token::CsName>,
